@@ -41,7 +41,7 @@ macro_rules! imp {
                 if self.get().is_some() {
                     return Err(value);
                 }
-                unsafe { *self.inner.get() = Some(value) };
+                unsafe { std::ptr::write(self.inner.get(), Some(value)) };
                 Ok(())
             }
             pub fn get_or_init<F: FnOnce() -> T>(&self, f: F) -> &T {
@@ -54,12 +54,9 @@ macro_rules! imp {
                 self.initializing.set(true);
                 let v = f();
                 self.initializing.set(false);
-                unsafe {
-                    let slot = &mut *self.inner.get();
-                    if slot.is_none() {
-                        *slot = Some(v);
-                    }
-                }
+                // The slot is None here (checked above, single-threaded model): write without
+                // running drop glue on the old content (keeps CBMC from exploring it).
+                unsafe { std::ptr::write(self.inner.get(), Some(v)) };
                 self.get().unwrap()
             }
             pub fn get_or_try_init<F: FnOnce() -> Result<T, E>, E>(&self, f: F) -> Result<&T, E> {
@@ -67,7 +64,7 @@ macro_rules! imp {
                     return Ok(v);
                 }
                 let v = f()?;
-                unsafe { *self.inner.get() = Some(v) };
+                unsafe { std::ptr::write(self.inner.get(), Some(v)) };
                 Ok(self.get().unwrap())
             }
             pub fn take(&mut self) -> Option<T> {
